@@ -28,7 +28,7 @@ CHECKS = {
                  quick=dict(shards=1, checks=1, timeout=60),
                  thorough=dict(shards=1, checks=1, timeout=60)),
             dict(pkg="table", run="^TestC03JoinLeave$",
-                 quick=dict(shards=4, checks=1500, timeout=240),
+                 quick=dict(shards=6, checks=3000, timeout=240),
                  thorough=dict(shards=16, checks=30000, timeout=1500)),
         ],
         rule="(4) join-then-leave races (c03j, CT/cash tables): the last reserved player sits in - which completes the engine's auto-join group, whose completion callback walks the player list on a goroutine of its own - and the caller issues a departure (PlayersLeave one / two players, UpdateTablePlayers) back to back after a drawn spin of 0-2000 loop iterations; the process must survive (a crash inside pokertable is reported as a violation) and table and seat manager must agree once quiet; (1) stateful sequences of <=30 membership operations (create-with-players, reserve fixed/random/taken/out-of-range/full, re-buy, join, leave one/several/unknown/mixed/duplicate, batch update valid/invalid) on one real TableEngine, seat counts 2..10; (2) the same predicate at every quiescent point of real table histories (after hands); oracle = three-way agreement seat map / player list / seat manager + reference seat model + error => table and seat manager byte-identical; non-trivial = a failing operation after a successful one, or re-use of a vacated seat; distinct = distinct op-class traces",
